@@ -1046,7 +1046,7 @@ func gcvHsum(alg interface{}, key, msg string) string {
 	case "safety":
 		// the panic must be of the obligation's class (a model artefact may crash elsewhere, e.g. on an unset field)
 		want := map[string]string{"slice": "slice bounds out of range", "index": "index out of range", "nil-deref": "nil pointer dereference",
-			"nil-iface": "nil pointer dereference", "nil-func": "nil pointer dereference", "nil-arg": "nil pointer dereference", "nil-recv": "nil pointer dereference", "type-assert": "interface conversion",
+			"nil-iface": "nil pointer dereference", "nil-func": "nil pointer dereference", "nil-arg": "nil pointer dereference", "nil-recv": "nil pointer dereference", "nil-capture": "nil pointer dereference", "type-assert": "interface conversion",
 			"div-zero": "divide by zero", "nil-map-write": "assignment to entry in nil map", "makeslice": "makeslice"}
 		kind := o.Label
 		if i := strings.Index(kind, ":"); i >= 0 {
